@@ -86,7 +86,17 @@ pub enum Op {
     IntoIter { rx: u16, max: u8, variant: u8 },
     /// a non-blocking iterator kept alive across a send: next() up to `max`+1 times or to the
     /// first None, then a try_send through `tx`, then up to two more next() on the same iterator
-    TryIterAcross { rx: u16, tx: u16, max: u8, variant: u8 },
+    /// With `clone_to` > 0 the middle action is instead: clone the receiver (while the iterator
+    /// borrows it) and start program `clone_to` with the clone; then up to four more next() with a
+    /// harness yield after each, so that the old iterator and the new sibling receive concurrently.
+    TryIterAcross {
+        rx: u16,
+        tx: u16,
+        max: u8,
+        variant: u8,
+        #[serde(default)]
+        clone_to: u8,
+    },
     Poll { rx: u16, by_ref: bool },
     /// task loop: poll until Ready, parking the task on NotReady
     StreamNext { rx: u16 },
@@ -1016,29 +1026,53 @@ impl Ctx {
                 }
                 None => self.skip(),
             },
-            Op::TryIterAcross { rx, tx, max, variant } => match pick(*rx, self.rxs.len()) {
-                Some(i) if self.rxs[i].rx.has_iter() => {
+            Op::TryIterAcross { rx, tx, max, variant, clone_to } => match pick(*rx, self.rxs.len()) {
+                Some(i) if self.rxs[i].rx.has_iter() && (*clone_to == 0 || self.rxs[i].rx.can_clone()) => {
                     // the receiver leaves the table while its iterator borrows it, so that the
-                    // send in the middle can go through the interpreter as any other send
-                    let mut h = self.rxs.remove(i);
+                    // action in the middle can go through the interpreter as any other operation
+                    let h = self.rxs.remove(i);
                     let (hid, stream, rxk) = (h.id, h.stream, h.rx.kind());
                     let act = Act { kind: CallKind::TryIterNext.code(), handle: hid, stream, op_idx: self.op_idx };
                     sched().set_activity(act);
                     let mut emit = self.iter_emitter(hid, stream, rxk, CallKind::TryIterNext, Arc::new(std::sync::atomic::AtomicU64::new(0)));
                     let send_op = Op::TrySend { tx: *tx };
+                    let child = *clone_to;
                     {
-                        let mut mid = || {
-                            // the interpreter's own work is not the crate's: only the call it
-                            // makes counts (it opens its own scope)
+                        let mut mid = |me: &Rx| {
+                            // the interpreter's own work is not the crate's: only the calls it
+                            // makes count (they open their own scope)
                             let _nc = crate::mem::NoCount::new();
-                            self.exec(&send_op);
+                            if child == 0 {
+                                self.exec(&send_op);
+                            } else {
+                                let nid = {
+                                    let mut l = self.sh.lock();
+                                    l.next_handle += 1;
+                                    l.next_handle - 1
+                                };
+                                let sib = self.call(CallKind::CloneRx, hid, stream, Some(rxk), move |_| {
+                                    let r = me.dup().unwrap();
+                                    (r, Res::NewHandle { handle: nid, stream })
+                                });
+                                self.rxs.push(RxH { rx: sib, id: nid, stream });
+                                self.exec(&Op::Spawn { prog: child, tx: vec![], rx: vec![65535] });
+                            }
                             sched().set_activity(act);
                         };
                         let _count = crate::mem::Count::on();
-                        h.rx.try_iter_across(*max as usize + 1, *variant, &|| sched().tick(), &mut emit, &mut mid).unwrap();
+                        let after = if child == 0 { 2 } else { 4 };
+                        h.rx
+                            .try_iter_across(*max as usize + 1, *variant, &|| sched().tick(), &mut emit, &mut mid, after, &|| {
+                                if child != 0 {
+                                    let _nc = crate::mem::NoCount::new();
+                                    sched().harness_yield();
+                                    sched().set_activity(act);
+                                }
+                            })
+                            .unwrap();
                     }
                     sched().set_activity(Act::default());
-                    self.rxs.insert(i, h);
+                    self.rxs.insert(i.min(self.rxs.len()), h);
                 }
                 Some(i) => {
                     self.do_try_recv(i);
